@@ -167,9 +167,11 @@ type xl struct {
 	skipped  map[string]string
 }
 
+// xlateError is how the translator gives up: translateSource turns it into an error, main into exit status 1
+type xlateError struct{ msg string }
+
 func (x *xl) fail(pos token.Pos, f string, a ...interface{}) {
-	fmt.Fprintf(os.Stderr, "xlate: %s: unsupported (outside the translated subset): %s\n", x.fset.Position(pos), fmt.Sprintf(f, a...))
-	os.Exit(1)
+	panic(xlateError{fmt.Sprintf("%s: unsupported (outside the translated subset): %s", x.fset.Position(pos), fmt.Sprintf(f, a...))})
 }
 
 var leanReserved = map[string]bool{"at": true, "from": true, "end": true, "fun": true, "open": true, "in": true, "do": true, "then": true,
@@ -1122,8 +1124,7 @@ func codecShape(path string) string {
 	fset := token.NewFileSet()
 	file, err := parser.ParseFile(fset, path, nil, 0)
 	if err != nil {
-		fmt.Fprintln(os.Stderr, "xlate:", err)
-		os.Exit(1)
+		panic(xlateError{err.Error()})
 	}
 	var sb strings.Builder
 	sb.WriteString("/-- currency_gen.go: the msgp members each codec method uses, in source order -/\ndef codecCalls : List (String × List String) := [")
@@ -1188,22 +1189,50 @@ func main() {
 		fmt.Fprintln(os.Stderr, "xlate: -out required")
 		os.Exit(2)
 	}
-	path := filepath.Join(*repo, "core", "currency", "currency.go")
-	srcB, err := os.ReadFile(path)
+	text, nf, ne, err := translateSource(filepath.Join(*repo, "core", "currency", "currency.go"), filepath.Join(*repo, "core", "currency", "currency_gen.go"))
 	if err != nil {
 		fmt.Fprintln(os.Stderr, "xlate:", err)
 		os.Exit(1)
 	}
-	x := &xl{fset: token.NewFileSet(), src: string(srcB), funcs: map[string]*fsig{}, errMsgs: map[string]string{}, errSet: map[string]bool{},
-		globals: map[string]kind{}, globalV: map[string]string{}, typeKind: map[string]kind{}, skipped: map[string]string{}}
-	file, err := parser.ParseFile(x.fset, path, srcB, parser.ParseComments)
-	if err != nil {
+	if err := os.MkdirAll(filepath.Dir(*out), 0o755); err != nil {
 		fmt.Fprintln(os.Stderr, "xlate:", err)
 		os.Exit(1)
+	}
+	if err := os.WriteFile(*out, []byte(text), 0o644); err != nil {
+		fmt.Fprintln(os.Stderr, "xlate:", err)
+		os.Exit(1)
+	}
+	fmt.Printf("xlate: %d functions, %d error values -> %s\n", nf, ne, *out)
+}
+
+// sharedImporter caches the type-checked standard-library packages across translations (tests)
+var sharedFset = token.NewFileSet()
+var sharedImporter = importer.ForCompiler(sharedFset, "source", nil)
+
+// translateSource translates one Go file (and extracts the codec shape of codecPath unless it is empty)
+func translateSource(path, codecPath string) (text string, nfuncs, nerrs int, err error) {
+	defer func() {
+		if r := recover(); r != nil {
+			if xe, ok := r.(xlateError); ok {
+				err = fmt.Errorf("%s", xe.msg)
+				return
+			}
+			panic(r)
+		}
+	}()
+	srcB, rerr := os.ReadFile(path)
+	if rerr != nil {
+		return "", 0, 0, rerr
+	}
+	x := &xl{fset: sharedFset, src: string(srcB), funcs: map[string]*fsig{}, errMsgs: map[string]string{}, errSet: map[string]bool{},
+		globals: map[string]kind{}, globalV: map[string]string{}, typeKind: map[string]kind{}, skipped: map[string]string{}}
+	file, perr := parser.ParseFile(x.fset, path, srcB, parser.ParseComments)
+	if perr != nil {
+		return "", 0, 0, perr
 	}
 	x.info = &types.Info{Types: map[ast.Expr]types.TypeAndValue{}, Defs: map[*ast.Ident]types.Object{}, Uses: map[*ast.Ident]types.Object{}}
 	var typeErrs []string
-	conf := types.Config{Importer: fakeImporter{importer.ForCompiler(x.fset, "source", nil)}, Error: func(err error) {
+	conf := types.Config{Importer: fakeImporter{sharedImporter}, Error: func(err error) {
 		// the decimal library is not type-checked, so its members are "undefined"; every other type error is fatal
 		if !strings.Contains(err.Error(), "undefined: decimal.") {
 			typeErrs = append(typeErrs, err.Error())
@@ -1211,8 +1240,7 @@ func main() {
 	}}
 	conf.Check("currency", x.fset, []*ast.File{file}, x.info)
 	if len(typeErrs) > 0 {
-		fmt.Fprintln(os.Stderr, "xlate: currency.go does not type-check:\n  "+strings.Join(typeErrs, "\n  "))
-		os.Exit(1)
+		return "", 0, 0, fmt.Errorf("%s does not type-check:\n  %s", filepath.Base(path), strings.Join(typeErrs, "\n  "))
 	}
 
 	var initDecl *ast.FuncDecl
@@ -1323,15 +1351,19 @@ func main() {
 	sum := sha256.Sum256(srcB)
 	fmt.Fprintf(&b, "/- GENERATED by go/xlate from core/currency/currency.go (sha256 %x…) — DO NOT EDIT.\n   Regenerated by bin/check before every Lean build; see go/xlate/main.go for the translated subset. -/\n", sum[:8])
 	b.WriteString("import Verif.Model.GoSem\nimport Verif.Model.F64\nimport Verif.Model.Dec\nset_option linter.unusedVariables false\nnamespace Verif.Gen.Currency\nopen Verif.GoSem Verif.F64 Verif.Dec\n\n")
-	b.WriteString("/-- the package-level error values `var ErrX = errors.New(..)` -/\ninductive ErrKind where\n")
-	for _, n := range x.errNames {
-		fmt.Fprintf(&b, "  | %s\n", n)
+	if len(x.errNames) == 0 { // no error values: an empty type (cannot derive the instances for it)
+		b.WriteString("/-- the package-level error values `var ErrX = errors.New(..)`: none -/\ninductive ErrKind : Type\n\ninstance : DecidableEq ErrKind := fun a => nomatch a\ninstance : Repr ErrKind := ⟨fun a _ => nomatch a⟩\n\ndef ErrKind.msg : ErrKind → String := fun a => nomatch a\n\n")
+	} else {
+		b.WriteString("/-- the package-level error values `var ErrX = errors.New(..)` -/\ninductive ErrKind where\n")
+		for _, n := range x.errNames {
+			fmt.Fprintf(&b, "  | %s\n", n)
+		}
+		b.WriteString("  deriving DecidableEq, Repr\n\n/-- the message of each error value -/\ndef ErrKind.msg : ErrKind → String\n")
+		for _, n := range x.errNames {
+			fmt.Fprintf(&b, "  | .%s => %q\n", n, x.errMsgs[n])
+		}
+		b.WriteString("\n")
 	}
-	b.WriteString("  deriving DecidableEq, Repr\n\n/-- the message of each error value -/\ndef ErrKind.msg : ErrKind → String\n")
-	for _, n := range x.errNames {
-		fmt.Fprintf(&b, "  | .%s => %q\n", n, x.errMsgs[n])
-	}
-	b.WriteString("\n")
 	for _, t := range x.typeDefs {
 		b.WriteString(t + "\n\n")
 	}
@@ -1374,7 +1406,9 @@ func main() {
 	}
 	// currency_gen.go (msgp codec, generated code): not translated — hand-modelled in Verif/Model/Msgp.lean; here only
 	// its shape is extracted (which msgp functions each method uses, in source order) and pinned by a theorem
-	b.WriteString(codecShape(filepath.Join(*repo, "core", "currency", "currency_gen.go")))
+	if codecPath != "" {
+		b.WriteString(codecShape(codecPath))
+	}
 	sort.Strings(emitted)
 	b.WriteString("/-- every function of currency.go that was translated (pinned by `Props/C18.generated_functions`, so a new\n    function cannot appear without a theorem) -/\ndef generatedFunctions : List String := [")
 	for i, n := range emitted {
@@ -1384,13 +1418,5 @@ func main() {
 		fmt.Fprintf(&b, "%q", n)
 	}
 	b.WriteString("]\n\nend Verif.Gen.Currency\n")
-	if err := os.MkdirAll(filepath.Dir(*out), 0o755); err != nil {
-		fmt.Fprintln(os.Stderr, "xlate:", err)
-		os.Exit(1)
-	}
-	if err := os.WriteFile(*out, []byte(b.String()), 0o644); err != nil {
-		fmt.Fprintln(os.Stderr, "xlate:", err)
-		os.Exit(1)
-	}
-	fmt.Printf("xlate: %d functions, %d error values -> %s\n", len(emitted), len(x.errNames), *out)
+	return b.String(), len(emitted), len(x.errNames), nil
 }
